@@ -1,6 +1,7 @@
 package main
 
 import (
+	"sort"
 	"encoding/json"
 	"fmt"
 	"reflect"
@@ -252,10 +253,78 @@ func c09AsArgument(c *Ctx, rv c09Recv) {
 			c.Violation("panic:as-argument", fmt.Sprintf("read-only %s passed as %s argument: %s", rv.Name, form, p), nil, 0)
 			continue
 		}
-		// ... and nested in a writable parent that is then rearranged
-		parent := stackage.Or().Push("a", arg, stackage.And().Push(arg))
-		if p := noPanic(func() { parent.Reveal(); parent.Defrag(); parent.Reverse(); _ = parent.String(); parent.Reset() }); p != "" {
-			c.Violation("panic:nested-in-parent", fmt.Sprintf("read-only %s nested (as %s) in a parent: %s", rv.Name, form, p), nil, 0)
+		// ... and nested in a writable parent that is then rearranged: every arrangement of up to three
+		// slots holding the read-only stack (directly or as a Condition's expression) at any position
+		// among leaves, nil, single-element envelopes and an ordinary nested stack, x every
+		// parent-level operation that descends into children
+		sibs := []func() any{
+			func() any { return "leaf" },
+			func() any { return nil },
+			func() any { return stackage.And().Push(stackage.Cond("e", stackage.Eq, "v")) },
+			func() any { return stackage.And().Push(stackage.Or().Push("x", "y")) },
+			func() any { return stackage.Or().Push("p", "q") },
+		}
+		holders := []func() any{
+			func() any { return arg },
+			func() any { return stackage.Cond("holder", stackage.Ne, arg) },
+		}
+		parentOps := []struct {
+			n string
+			f func(p stackage.Stack)
+		}{
+			{"Reveal", func(p stackage.Stack) { p.Reveal() }}, {"Defrag", func(p stackage.Stack) { p.Defrag() }}, {"Reverse", func(p stackage.Stack) { p.Reverse() }},
+			{"String", func(p stackage.Stack) { _ = p.String() }}, {"Unmarshal", func(p stackage.Stack) { p.Unmarshal() }}, {"Reset", func(p stackage.Stack) { p.Reset() }},
+			{"Reveal+Defrag+Reverse+Reset", func(p stackage.Stack) { p.Reveal(); p.Defrag(); p.Reverse(); _ = p.String(); p.Reset() }},
+		}
+		var shapes [][]int // -1 / -2: the holder (direct / in a Condition), >= 0: sibling index
+		for width := 1; width <= 3; width++ {
+			for pos := 0; pos < width; pos++ {
+				for h := -2; h <= -1; h++ {
+					var rec func(cur []int)
+					rec = func(cur []int) {
+						if len(cur) == width {
+							shapes = append(shapes, append([]int{}, cur...))
+							return
+						}
+						if len(cur) == pos {
+							rec(append(cur, h))
+							return
+						}
+						for i := range sibs {
+							rec(append(cur, i))
+						}
+					}
+					rec(nil)
+				}
+			}
+		}
+		failed := false
+		for _, sh := range shapes {
+			for _, po := range parentOps {
+				parent := stackage.Or()
+				for _, x := range sh {
+					if x < 0 {
+						parent.Push(holders[-x-1]())
+					} else {
+						parent.Push(sibs[x]())
+					}
+				}
+				c.Transitions.Add(1)
+				if p := noPanic(func() { po.f(parent) }); p != "" {
+					c.Violation("panic:nested-in-parent", fmt.Sprintf("read-only %s nested (as %s) in a parent of shape %v, %s: %s", rv.Name, form, sh, po.n, p), nil, 0)
+					failed = true
+					break
+				}
+				if after := c09Key(ro, 0, false); after != before {
+					c.Violation("changed:nested-in-parent:"+po.n, fmt.Sprintf("read-only %s (as %s) changed when its parent of shape %v (-1: the stack itself, -2: a Condition holding it, 0 leaf, 1 nil, 2 envelope of a Condition, 3 envelope of a Stack, 4 two-element Stack) underwent %s:\n before %s\n after  %s", rv.Name, form, sh, po.n, before, after), nil, 0)
+					return
+				}
+			}
+			if failed {
+				break
+			}
+		}
+		if failed {
 			continue
 		}
 		if after := c09Key(ro, 0, false); after != before {
@@ -263,6 +332,56 @@ func c09AsArgument(c *Ctx, rv c09Recv) {
 			return
 		}
 	}
+}
+
+// c09PackageFuncs: every exported package-level function x argument tuples, called while a read-only
+// Stack and a read-only Condition exist that are never handed to the call: what they answer to every
+// argument-free query (the logger they hand out included) and their raw state stay as they were.
+func c09PackageFuncs(c *Ctx) int {
+	names := make([]string, 0, len(packageFuncs))
+	for k := range packageFuncs {
+		names = append(names, k)
+	}
+	sort.Strings(names)
+	aw := awkwardAny()
+	pick := func(t reflect.Type, pos int) []namedValue {
+		switch t {
+		case anyType:
+			return append(append([]namedValue{}, aw...), nv(`"off"`, "off"), nv(`"trace"`, "trace"), nv("70000", 70000))
+		case opType:
+			return []namedValue{{"Eq", reflect.ValueOf(stackage.Eq)}, {"nil-op", reflect.Zero(opType)}}
+		case intType:
+			return []namedValue{nv("0", 0), nv("-1", -1), nv("3", 3)}
+		}
+		return basicValues(t)
+	}
+	n := 0
+	for _, name := range names {
+		fn := packageFuncs[name]
+		for _, t := range argTuples(fn.Type(), pick, 300) {
+			n++
+			c.Transitions.Add(1)
+			ro := stackage.And().Push("a", stackage.Or().Push("b")).SetReadOnly(true)
+			rc := stackage.Cond("k", stackage.Eq, "v").SetReadOnly(true)
+			b1, b2, k1, k2 := observe(ro, false), observe(rc, false), c09Key(ro, 0, false), c09Key(rc, 0, false)
+			p := noPanic(func() { fn.Call(t.Args) })
+			a1, a2, l1, l2 := observe(ro, false), observe(rc, false), c09Key(ro, 0, false), c09Key(rc, 0, false)
+			stackage.SetDefaultStackLogger("off")
+			stackage.SetDefaultConditionLogger("off")
+			stackage.SetDefaultStackLogLevel(stackage.NoLogLevels)
+			stackage.SetDefaultConditionLogLevel(stackage.NoLogLevels)
+			if p != "" {
+				continue // C17's business
+			}
+			if a1 != b1 || l1 != k1 {
+				c.Violation("changed-by-package-function:"+name, fmt.Sprintf("%s(%s) changed a read-only Stack that was not passed to it:\n before %s %s\n after  %s %s", name, t.Desc, b1, k1, a1, l1), nil, len(t.Desc))
+			}
+			if a2 != b2 || l2 != k2 {
+				c.Violation("changed-by-package-function:"+name, fmt.Sprintf("%s(%s) changed a read-only Condition that was not passed to it:\n before %s %s\n after  %s %s", name, t.Desc, b2, k2, a2, l2), nil, len(t.Desc))
+			}
+		}
+	}
+	return n
 }
 
 func callNames(cs []c09Call) []string {
@@ -348,11 +467,12 @@ func init() {
 		for _, rv := range recvs {
 			c09AsArgument(c, rv)
 		}
+		c.Bound["package_function_calls_beside_read_only_instances"] = c09PackageFuncs(c)
 		c.States.Store(int64(len(jobs)))
 		c.Traces.Store(int64(len(jobs)))
 		c.Evals.Store(c.Transitions.Load())
 		c.Exhaustive = true
-		c.Rule = "every exported method of Stack and Condition (method sets read by reflection) x argument tuples from the typed catalogue, called singly on every read-only receiver (5 kinds x 3 contents x plain / fully configured, 4 Conditions) and as ordered pairs on representative receivers; before/after comparison of the raw recursive dump (addresses included, nested Stacks and Conditions too); documented exceptions only: the read-only bit via SetReadOnly/ReadOnly, the error via SetErr, Condition.Init replacing the handle; Free must fail; clearing the flag must give back the state as it was and mutability; non-trivial = distinct (receiver, call) that left the dump unchanged"
+		c.Rule = "every exported method of Stack and Condition (method sets read by reflection) x argument tuples from the typed catalogue, called singly on every read-only receiver (5 kinds x 3 contents x plain / fully configured, 4 Conditions) and as ordered pairs on representative receivers; before/after comparison of the raw recursive dump (addresses included, nested Stacks and Conditions too); documented exceptions only: the read-only bit via SetReadOnly/ReadOnly, the error via SetErr, Condition.Init replacing the handle; Free must fail; read-only instances nested at every position of small parents that are revealed / defragmented / reversed / rendered / reset, and standing beside every package-level function call, answer and dump as before; clearing the flag must give back the state as it was and mutability; non-trivial = distinct (receiver, call) that left the dump unchanged"
 		c.Bound["receivers"] = len(recvs)
 		c.Bound["single_calls"] = nSingles
 		c.Bound["call_pairs"] = nPairs
